@@ -3,9 +3,11 @@
     [size] bytes at [offset] and re-hash them against the stored multihash) and
     filestore/filestore.go (Get: main blockstore first, the FileManager on NotFound).
 
-    The hash is NOT modelled: [H : N -> B -> bytes] (prefix id -> data -> digest)
-    is a Section variable the theorems quantify over; a CID is its prefix id and
-    its digest, and [Prefix().Sum(data)] is [(pref, H pref data)].  For the
+    The hash is NOT modelled: [H : N -> B -> option bytes] (prefix id -> data ->
+    digest, or [None] when the digest cannot be computed: Prefix().Sum fails for an
+    unknown / hasher-less multihash code or a digest length the function cannot
+    deliver) is a Section variable the theorems quantify over; a CID is its prefix
+    id and its digest, and [Prefix().Sum(data)] is [(pref, H pref data)].  For the
     correspondence check [H] is instantiated by a table of digests that the
     harness computed with an independent hash implementation.
     No proofs in this file. *)
@@ -48,15 +50,20 @@ Arguments OOther {B}.
 
 Section Hash.
   Variable B : Type.                     (* block contents *)
-  Variable H : N -> B -> bytes.          (* prefix id -> data -> digest *)
+  Variable H : N -> B -> option bytes.   (* prefix id -> data -> digest, if computable *)
 
-  Definition sum (pref : N) (b : B) : cid := Cid pref (H pref b).
+  Definition sum (pref : N) (b : B) : option cid := option_map (Cid pref) (H pref b).
 
-  (** validating_blockstore.go Get: whatever the backing store answers for [c] *)
+  (** validating_blockstore.go Get: whatever the backing store answers for [c];
+      an error of Prefix().Sum is an error of Get — the bytes are NOT handed out *)
   Definition vget (backing : option B) (c : cid) : outcome B :=
     match backing with
     | None => ONotFound
-    | Some b => if cid_eqb (sum (c_pref c) b) c then OOk b else OHashMismatch
+    | Some b =>
+        match sum (c_pref c) b with
+        | None => OOther
+        | Some c' => if cid_eqb c' c then OOk b else OHashMismatch
+        end
     end.
 End Hash.
 
@@ -92,7 +99,7 @@ Definition read_at (r : reader) (f : fstate) (off size : N) : bytes + status :=
   end.
 
 Section FsHash.
-  Variable H : N -> bytes -> bytes.
+  Variable H : N -> bytes -> option bytes.
 
   (** readFileDataObj: the stored multihash is re-wrapped as CIDv1-raw, so only the
       hash function/length part of the prefix matters: [want] = (pref, digest) *)
@@ -100,7 +107,11 @@ Section FsHash.
     if negb allow then ONotEnabled else
     match read_at r f off size with
     | inr s => OCorrupt s
-    | inl b => if cid_eqb (sum bytes H (c_pref want) b) want then OOk b else OCorrupt StFileChanged
+    | inl b =>
+        match sum bytes H (c_pref want) b with
+        | None => OOther                                   (* "return nil, err" of Prefix().Sum *)
+        | Some c' => if cid_eqb c' want then OOk b else OCorrupt StFileChanged
+        end
     end.
 
   (** readURLDataObj: the HTTP answer is (status code, body) *)
@@ -110,7 +121,10 @@ Section FsHash.
     if N.of_nat (length body) <? size then OCorrupt StFileChanged           (* io.ReadFull: EOF / ErrUnexpectedEOF *)
     else
       let b := firstn (N.to_nat size) body in
-      if cid_eqb (sum bytes H (c_pref want) b) want then OOk b else OCorrupt StFileChanged.
+      match sum bytes H (c_pref want) b with
+      | None => OOther
+      | Some c' => if cid_eqb c' want then OOk b else OCorrupt StFileChanged
+      end.
 
   (** filestore.go Get: the main blockstore first, the reference on NotFound *)
   Definition filestore_get (main : option bytes) (ref : outcome bytes) : outcome bytes :=
@@ -123,15 +137,18 @@ Definition range_of (off size : N) : N * N := (off, (off + size + (two64 - 1)) m
 
 (** ---------- correspondence ---------- *)
 (** digests computed by the harness with an independent implementation:
-    (prefix id, data) -> digest.  Data absent from the table hashes to [0xFFFF]
-    (not a byte string, so it matches no digest) and is reported. *)
-Definition tab_lookup {B} (eqb : B -> B -> bool) (tab : list (N * B * bytes)) (pref : N) (b : B) : option bytes :=
+    (prefix id, data) -> digest, or [None] when no digest exists for that prefix
+    (unknown hash code, digest longer than the function delivers).  Data absent
+    from the table hashes to [0xFFFF] (not a byte string, so it matches no
+    digest). *)
+Definition tab_lookup {B} (eqb : B -> B -> bool) (tab : list (N * B * option bytes)) (pref : N) (b : B)
+  : option (option bytes) :=
   match find (fun e => (fst (fst e) =? pref) && eqb (snd (fst e)) b) tab with
   | Some e => Some (snd e)
   | None => None
   end.
-Definition tab_hash {B} (eqb : B -> B -> bool) (tab : list (N * B * bytes)) (pref : N) (b : B) : bytes :=
-  match tab_lookup eqb tab pref b with Some d => d | None => [65535] end.
+Definition tab_hash {B} (eqb : B -> B -> bool) (tab : list (N * B * option bytes)) (pref : N) (b : B) : option bytes :=
+  match tab_lookup eqb tab pref b with Some d => d | None => Some [65535] end.
 
 Definition status_eqb (a b : status) : bool :=
   match a, b with
@@ -158,25 +175,27 @@ Definition outcome_eqb {B} (eqb : B -> B -> bool) (a b : outcome B) : bool :=
     - [CUrl]: a URL reference answered by an HTTP server with (code, body); the
       Range header that arrived. *)
 Inductive case :=
-| CVal (want : cid) (stored : option N) (tab : list (N * N * bytes)) (got : outcome N)
+| CVal (want : cid) (stored : option N) (tab : list (N * N * option bytes)) (got : outcome N)
 | CFile (allow : bool) (r : reader) (f : fstate) (off size : N) (want : cid)
-        (tab : list (N * bytes * bytes)) (got got_fs : outcome bytes)
+        (tab : list (N * bytes * option bytes)) (got got_fs : outcome bytes)
 | CUrl (allow : bool) (code : N) (body : bytes) (off size : N) (want : cid)
-       (tab : list (N * bytes * bytes)) (range : option (N * N)) (got got_fs : outcome bytes).
+       (tab : list (N * bytes * option bytes)) (range : option (N * N)) (got got_fs : outcome bytes).
 
-(** the specification: bytes are only handed out if they hash to the requested CID *)
-Definition sound {B} (eqb : B -> B -> bool) (tab : list (N * B * bytes)) (want : cid) (got : outcome B) : bool :=
+(** the specification: bytes are only handed out if they are KNOWN to hash to the
+    requested CID — when no digest can be computed for the CID's prefix the answer
+    must be an error *)
+Definition sound {B} (eqb : B -> B -> bool) (tab : list (N * B * option bytes)) (want : cid) (got : outcome B) : bool :=
   match got with
   | OOk b => match tab_lookup eqb tab (c_pref want) b with
-             | Some d => bytes_eqb d (c_digest want)
-             | None => false
+             | Some (Some d) => bytes_eqb d (c_digest want)
+             | _ => false
              end
   | _ => true
   end.
 
 (** ... and a reference whose file is gone, shrank below the region, or whose
     region no longer hashes to the CID is reported as corrupt *)
-Definition fs_reported (tab : list (N * bytes * bytes)) (r : reader) (f : fstate) (off size : N) (want : cid)
+Definition fs_reported (tab : list (N * bytes * option bytes)) (r : reader) (f : fstate) (off size : N) (want : cid)
            (got : outcome bytes) : bool :=
   let bad :=
     match f with
@@ -184,7 +203,10 @@ Definition fs_reported (tab : list (N * bytes * bytes)) (r : reader) (f : fstate
     | FDir => negb (size =? 0)
     | FFile content =>
         if N.of_nat (length content) <? off + size then negb (size =? 0) || match r with RMmap => true | RStd => false end && (N.of_nat (length content) <? off)
-        else negb (bytes_eqb (tab_hash bytes_eqb tab (c_pref want) (region content off size)) (c_digest want))
+        else match tab_hash bytes_eqb tab (c_pref want) (region content off size) with
+             | Some d => negb (bytes_eqb d (c_digest want))
+             | None => false          (* no digest computable: an error, but not a CorruptReferenceError *)
+             end
     end in
   if bad then match got with OCorrupt _ => true | _ => false end else true.
 
